@@ -223,11 +223,18 @@ where
         } else {
             // Start a multi-block read
             self.card_command(CMD18, start_idx)?;
+            let mut result = Ok(());
             for block in blocks.iter_mut() {
-                self.read_data(&mut block.contents)?;
+                result = self.read_data(&mut block.contents);
+                if result.is_err() {
+                    break;
+                }
             }
-            // Stop the read
-            self.card_command(CMD12, 0)?;
+            // Stop the read - also when a block failed, as the card is
+            // still sending and would not understand the next command
+            let stopped = self.card_command(CMD12, 0);
+            result?;
+            stopped?;
         }
         Ok(())
     }
